@@ -72,7 +72,7 @@ def r12_book(ctx):
                ok, found=None if ok else '%s at ply %d (%s) after %s' % (reason, ply + 1, toks[ply], ' '.join(toks[:ply])),
                expected='every move legal from the standard starting position',
                why='a game following the book must never be steered into an unplayable suggestion')
-    ctx.floor('C15.R1-book', 'book lines', n_lines, 60)
+    ctx.floor('C15.R1-book', 'book lines', n_lines, 20)
     ctx.extra['book_lines'] = n_lines
     ctx.extra['book_plies'] = n_plies
     # compiled book has one add_line per valid source line
@@ -119,17 +119,17 @@ def r3_fallback(ctx):
             ctx.ob(rule, name, 'book move returned is one of the generated legal moves', bool(src) and gen, found=show(v)[:200],
                    expected='candidates.iter().find(...)')
     ctx.floor(rule, 'return paths', n, 3)
-    # the find predicate compares from and to with the book move
-    clos = facts.closures_of(name)
-    okp = False
-    for c in clos:
-        outs = Engine(facts, readonly={CHESSMOVE + '::from_square', CHESSMOVE + '::to_square'}).run(c.name)
-        rets = [o for o in outs if o.kind == 'return']
-        txt = ' '.join(show(o.value) + ' ' + ' '.join(show_cond(x) for x in o.conds) for o in rets)
-        if 'from_square' in txt and 'to_square' in txt:
-            okp = True
-            ctx.touch(c.name)
-    ctx.ob(rule, name, 'book move matched on both origin and destination', okp, expected='m.from_square() == from && m.to_square() == to')
+    # the find predicate compares origin and destination with those of the book move (exact equality on both)
+    okp, found = False, None
+    fc = find_closures(outs)
+    if len(fc) == 1:
+        cname, snaps = next(iter(fc.items()))
+        ctx.touch(cname)
+        table, atoms, okrows = coordinate_predicate(facts, cname, snaps)
+        found = {'compared with': atoms, 'table': {str(k): v for k, v in table.items()}}
+        okp = okrows and table == AND_TABLE and 'from_square' in atoms.get('from_square', '') and 'to_square' in atoms.get('to_square', '') \
+            and 'from_square' not in atoms.get('to_square', '')
+    ctx.ob(rule, name, 'book move matched on both origin and destination', okp, found=found, expected='m.from_square() == from && m.to_square() == to')
 
 
 def r4_key(ctx):
